@@ -9,7 +9,7 @@ From Coq Require Import ZArith NArith List String Bool.
 From Wencry Require Import Bytes AesModel ModesModel HashModel FileModel FileProps PipeConc PipeProps MiniC MiniCRun MiniCLemmas MiniCConc SrcRun SrcRun2 SrcRun5.
 From Wencry Require Import RefineConcDone RefineE2EfPipe.
 From Wencry Require Import RefineE2EfLay RefineE2EfMach RefineE2EfMem RefineE2EfRel RefineE2EfGen RefineE2EfRun
-     RefineE2EfWLay RefineE2EfWOk RefineE2EfEnc RefineE2EfDec RefineE2EfTail RefineE2EfDec2 RefineE2EfHashSpec RefineE2EfEnc2 RefineE2EfFinal RefineE2EfSetup1 RefineE2EfFinal2 RefineE2EfFinal3 RefineE2EfFinal4.
+     RefineE2EfWLay RefineE2EfWOk RefineE2EfEnc RefineE2EfDec RefineE2EfTail RefineE2EfDec2 RefineE2EfHashSpec RefineE2EfEnc2 RefineE2EfFinal RefineE2EfSetup1 RefineE2EfFinal2 RefineE2EfFinal3 RefineE2EfFinal4 RefineE2EfSetup1D RefineE2EfDecFinal RefineE2EfDecFinal2.
 Import ListNotations.
 
 (* ---------------- (i) any layout, any stream object ---------------- *)
@@ -225,3 +225,49 @@ Theorem SRC_execute_encrypt_is_model_modulo_two_sequential_stretches :
   end.
 Proof. exact RefineE2EfFinal4.encrypt_modulo_second_step_seq. Qed.
 Print Assumptions SRC_execute_encrypt_is_model_modulo_two_sequential_stretches.
+
+(* decrypt: the set-up on the machine is proved too (RefineE2EfSetup1D.dec_first_step, RefineE2EfSetup2D.second_step, RefineE2EfSetup2AD.gi_if_ok_d,
+   RefineE2EfDecInst); left: THREE big-step premises about sequential code on explicit states: runcrypt::verify/1 and runcrypt::prepare_IV/0 with the
+   state they leave (RefineE2EfSetup1D.dec_verify_spec / dec_prepare_IV0_spec) and prepare_AES after get_instance for the decrypt layout instance
+   (RefineE2EfDecFinal.pa_rest_d_premise) *)
+Theorem SRC_execute_decrypt_is_model_modulo_three_sequential_premises :
+  RefineE2EfSetup1D.dec_verify_spec -> RefineE2EfSetup1D.dec_prepare_IV0_spec -> RefineE2EfDecFinal.pa_rest_d_premise ->
+  forall (c hbuf T : nat) (F key : list N) (rnd : N) (out : list N),
+  (1 <= c)%nat -> (1 <= hbuf)%nat -> (N.of_nat (16 * c) < 2 ^ 32)%N -> (N.of_nat (64 * hbuf) < 2 ^ 32)%N -> (1 <= T <= 16)%nat ->
+  block16 key -> bytesb F = true -> (N.of_nat (List.length F) < 2 ^ 36)%N ->
+  dec c hbuf T F key = FileModel.Ok out ->
+  match src_decrypt_file c hbuf T F key rnd with
+  | SOk (b, o, i, _) => b = true /\ o = out /\ i = F
+  | SErr w => w = "out of fuel"%string \/ w = "step bound reached"%string
+  end.
+Proof. exact RefineE2EfDecFinal.decrypt_modulo_named. Qed.
+Print Assumptions SRC_execute_decrypt_is_model_modulo_three_sequential_premises.
+
+(* decrypt: prepare_AES for the decrypt layout instance proved too (RefineE2EfSetup2PAD.pa_rest_ok_d, agent proof-hash): ONLY the two first-step
+   premises are left: runcrypt::verify/1 and runcrypt::prepare_IV/0 with the state they leave *)
+Theorem SRC_execute_decrypt_is_model_modulo_verify_and_prepare_IV :
+  RefineE2EfSetup1D.dec_verify_spec -> RefineE2EfSetup1D.dec_prepare_IV0_spec ->
+  forall (c hbuf T : nat) (F key : list N) (rnd : N) (out : list N),
+  (1 <= c)%nat -> (1 <= hbuf)%nat -> (N.of_nat (16 * c) < 2 ^ 32)%N -> (N.of_nat (64 * hbuf) < 2 ^ 32)%N -> (1 <= T <= 16)%nat ->
+  block16 key -> bytesb F = true -> (N.of_nat (List.length F) < 2 ^ 36)%N ->
+  dec c hbuf T F key = FileModel.Ok out ->
+  match src_decrypt_file c hbuf T F key rnd with
+  | SOk (b, o, i, _) => b = true /\ o = out /\ i = F
+  | SErr w => w = "out of fuel"%string \/ w = "step bound reached"%string
+  end.
+Proof. exact RefineE2EfDecFinal.decrypt_modulo_first_step_premises. Qed.
+Print Assumptions SRC_execute_decrypt_is_model_modulo_verify_and_prepare_IV.
+
+(* decrypt: prepare_IV/0 proved too (RefineE2EfDecD2.dec_prepare_IV0_ok, agent proof-hash): ONLY runcrypt::verify/1 with the state it leaves is left *)
+Theorem SRC_execute_decrypt_is_model_modulo_verify :
+  RefineE2EfSetup1D.dec_verify_spec ->
+  forall (c hbuf T : nat) (F key : list N) (rnd : N) (out : list N),
+  (1 <= c)%nat -> (1 <= hbuf)%nat -> (N.of_nat (16 * c) < 2 ^ 32)%N -> (N.of_nat (64 * hbuf) < 2 ^ 32)%N -> (1 <= T <= 16)%nat ->
+  block16 key -> bytesb F = true -> (N.of_nat (List.length F) < 2 ^ 36)%N ->
+  dec c hbuf T F key = FileModel.Ok out ->
+  match src_decrypt_file c hbuf T F key rnd with
+  | SOk (b, o, i, _) => b = true /\ o = out /\ i = F
+  | SErr w => w = "out of fuel"%string \/ w = "step bound reached"%string
+  end.
+Proof. exact RefineE2EfDecFinal2.decrypt_modulo_verify. Qed.
+Print Assumptions SRC_execute_decrypt_is_model_modulo_verify.
